@@ -30,6 +30,7 @@ properties! {
     "C09" => c09,
     "C11" => c11,
     "C12" => c12,
+    "C14" => c14,
     "C16" => c16,
     "C17" => c17,
     "C18" => c18,
